@@ -37,6 +37,77 @@ const (
 
 var layNames = [...]string{"nil", "empty-cap0", "fresh-spare-cap", "fresh-short-cap", "fresh-garbage-len", "s1[:0]", "s1[:k]", "s1[:0:0]", "s2[:0]"}
 
+// function ids (indices of the per-function call counters)
+const (
+	opDiff = iota
+	opIntersect
+	opUnique
+	opUniqueByKey
+	opFilter
+	opDiffIn
+	opIntersectIn
+	opUniqueIn
+	opUniqueByKeyIn
+	opFilterIn
+	nOps
+)
+
+var opNames = [...]string{"Diff", "Intersect", "Unique", "UniqueByKey", "Filter",
+	"DiffInPlaceFirst", "IntersectInPlaceFirst", "UniqueInPlace", "UniqueByKeyInPlace", "FilterInPlace"}
+
+// coverage counters are accumulated in arrays and flushed once per case
+const (
+	cResultEmpty = iota
+	cResultAll
+	cResultProper
+	cAliasedNonEmpty
+	cDstGrew
+	cReordered
+	cProperPartition
+	cS1Nil
+	cS1Empty
+	cS2Nil
+	cS2Empty
+	cDup
+	cRandInputs
+	cSmallInputs
+	nMisc
+)
+
+var miscNames = [...]string{"result_empty", "result_all_of_s1", "result_proper_subsequence", "aliased_dst_nonempty_result",
+	"dst_had_to_grow", "inplace_argument_reordered", "inplace_proper_partition", "s1_nil", "s1_empty", "s2_nil", "s2_empty",
+	"s1_with_duplicates", "setops_random_inputs", "small_scope_inputs"}
+
+type setAcc struct {
+	calls [nOps]int64
+	lays  [nLay]int64
+	alias [nAlias]int64
+	misc  [nMisc]int64
+}
+
+func (a *setAcc) flush(c *ev.Case) {
+	for i, v := range a.calls {
+		if v != 0 {
+			c.Add("calls/"+opNames[i], v)
+		}
+	}
+	for i, v := range a.lays {
+		if v != 0 {
+			c.Add("dst_layout/"+layNames[i], v)
+		}
+	}
+	for i, v := range a.alias {
+		if v != 0 {
+			c.Add("input_aliasing/"+aliasNames[i], v)
+		}
+	}
+	for i, v := range a.misc {
+		if v != 0 {
+			c.Add(miscNames[i], v)
+		}
+	}
+}
+
 // setInst is one instantiation of the generic functions under test.
 type setInst[T comparable] struct {
 	name      string
@@ -120,6 +191,7 @@ var instPair = &setInst[pair]{
 // setCase is one (s1, s2, aliasing mode) input on which all ten functions are run.
 type setCase[T comparable] struct {
 	c        *ev.Case
+	acc      *setAcc
 	in       *setInst[T]
 	v1, v2   []T // original contents; never handed to golib
 	nil1     bool
@@ -199,59 +271,55 @@ func (k *setCase[T]) ctx() string {
 }
 
 // out judges a dst-taking function: exactly the reference sequence.
-func (k *setCase[T]) out(op, param string, l lay, got, want, d []T) bool {
+func (k *setCase[T]) out(op int, param string, l lay, got, want, d []T) bool {
 	c := k.c
-	fn := op
-	op += param
 	if c.Logging() {
-		c.Logf("%s(dst=%s, %s) -> %s", op, layNames[l], k.ctx(), show(got))
+		c.Logf("%s%s(dst=%s, %s) -> %s", opNames[op], param, layNames[l], k.ctx(), show(got))
 	}
-	c.Add("calls/"+fn, 1)
-	c.Add("dst_layout/"+layNames[l], 1)
+	k.acc.calls[op]++
+	k.acc.lays[l]++
 	if !eqSeq(got, want) {
-		c.Failf("result/"+fn, "%s with dst=%s, %s: got %v, definition gives %v", op, layNames[l], k.ctx(), got, want)
+		c.Failf("result/"+opNames[op], "%s%s with dst=%s, %s: got %v, definition gives %v", opNames[op], param, layNames[l], k.ctx(), got, want)
 		return false
 	}
 	switch {
 	case len(want) == 0:
-		c.Add("result_empty", 1)
+		k.acc.misc[cResultEmpty]++
 	case len(want) == len(k.v1):
-		c.Add("result_all_of_s1", 1)
+		k.acc.misc[cResultAll]++
 	default:
-		c.Add("result_proper_subsequence", 1)
+		k.acc.misc[cResultProper]++
 	}
 	if l >= layS1 && len(want) > 0 {
-		c.Add("aliased_dst_nonempty_result", 1)
+		k.acc.misc[cAliasedNonEmpty]++
 	}
 	if len(got) > 0 && cap(d) > 0 && &got[0] != &d[:1][0] {
-		c.Add("dst_had_to_grow", 1)
+		k.acc.misc[cDstGrew]++
 	}
 	return true
 }
 
 // inpl judges an in-place variant: same multiset as the reference result, and
 // the argument slice is still a permutation of what it held.
-func (k *setCase[T]) inpl(op, param string, got, want, arg []T) bool {
+func (k *setCase[T]) inpl(op int, param string, got, want, arg []T) bool {
 	c := k.c
-	fn := op
-	op += param
 	if c.Logging() {
-		c.Logf("%s(%s) -> %s ; argument afterwards %s", op, k.ctx(), show(got), show(arg))
+		c.Logf("%s%s(%s) -> %s ; argument afterwards %s", opNames[op], param, k.ctx(), show(got), show(arg))
 	}
-	c.Add("calls/"+fn, 1)
+	k.acc.calls[op]++
 	if !sameMultiset(got, want) {
-		c.Failf("result/"+fn, "%s(%s): got %v, definition selects the multiset %v", op, k.ctx(), got, want)
+		c.Failf("result/"+opNames[op], "%s%s(%s): got %v, definition selects the multiset %v", opNames[op], param, k.ctx(), got, want)
 		return false
 	}
 	if !sameMultiset(arg, k.v1) {
-		c.Failf("argperm/"+fn, "%s(%s): argument slice afterwards is %v, not a permutation of its original content %v", op, k.ctx(), arg, k.v1)
+		c.Failf("argperm/"+opNames[op], "%s%s(%s): argument slice afterwards is %v, not a permutation of its original content %v", opNames[op], param, k.ctx(), arg, k.v1)
 		return false
 	}
 	if !eqSeq(arg, k.v1) {
-		c.Add("inplace_argument_reordered", 1)
+		k.acc.misc[cReordered]++
 	}
 	if len(want) > 0 && len(want) < len(k.v1) {
-		c.Add("inplace_proper_partition", 1)
+		k.acc.misc[cProperPartition]++
 	}
 	return true
 }
@@ -266,7 +334,7 @@ func (k *setCase[T]) runAll(lays func() []lay) bool {
 		if !c.Guard("Diff", func() { got = slicez.Diff(d, s1, s2) }) {
 			return false
 		}
-		if !k.out("Diff", "", ll, got, refDiff(k.v1, k.v2), d) {
+		if !k.out(opDiff, "", ll, got, refDiff(k.v1, k.v2), d) {
 			return false
 		}
 	}
@@ -277,7 +345,7 @@ func (k *setCase[T]) runAll(lays func() []lay) bool {
 		if !c.Guard("Intersect", func() { got = slicez.Intersect(d, s1, s2) }) {
 			return false
 		}
-		if !k.out("Intersect", "", ll, got, refIntersect(k.v1, k.v2), d) {
+		if !k.out(opIntersect, "", ll, got, refIntersect(k.v1, k.v2), d) {
 			return false
 		}
 	}
@@ -288,7 +356,7 @@ func (k *setCase[T]) runAll(lays func() []lay) bool {
 		if !c.Guard("Unique", func() { got = slicez.Unique(d, s1) }) {
 			return false
 		}
-		if !k.out("Unique", "", ll, got, refUnique(k.v1), d) {
+		if !k.out(opUnique, "", ll, got, refUnique(k.v1), d) {
 			return false
 		}
 	}
@@ -299,7 +367,7 @@ func (k *setCase[T]) runAll(lays func() []lay) bool {
 		if !c.Guard("UniqueByKey", func() { got = slicez.UniqueByKey(d, s1, k.key) }) {
 			return false
 		}
-		if !k.out("UniqueByKey", "["+k.keyName+"]", ll, got, refUniqueByKey(k.v1, k.key), d) {
+		if !k.out(opUniqueByKey, k.keyName, ll, got, refUniqueByKey(k.v1, k.key), d) {
 			return false
 		}
 	}
@@ -310,7 +378,7 @@ func (k *setCase[T]) runAll(lays func() []lay) bool {
 		if !c.Guard("Filter", func() { got = slicez.Filter(d, s1, k.pred) }) {
 			return false
 		}
-		if !k.out("Filter", "["+k.predName+"]", ll, got, refFilter(k.v1, k.pred), d) {
+		if !k.out(opFilter, k.predName, ll, got, refFilter(k.v1, k.pred), d) {
 			return false
 		}
 	}
@@ -321,7 +389,7 @@ func (k *setCase[T]) runAll(lays func() []lay) bool {
 		if !c.Guard("DiffInPlaceFirst", func() { got = slicez.DiffInPlaceFirst(s1, s2) }) {
 			return false
 		}
-		if !k.inpl("DiffInPlaceFirst", "", got, refDiff(k.v1, k.v2), s1) {
+		if !k.inpl(opDiffIn, "", got, refDiff(k.v1, k.v2), s1) {
 			return false
 		}
 	}
@@ -331,7 +399,7 @@ func (k *setCase[T]) runAll(lays func() []lay) bool {
 		if !c.Guard("IntersectInPlaceFirst", func() { got = slicez.IntersectInPlaceFirst(s1, s2) }) {
 			return false
 		}
-		if !k.inpl("IntersectInPlaceFirst", "", got, refIntersect(k.v1, k.v2), s1) {
+		if !k.inpl(opIntersectIn, "", got, refIntersect(k.v1, k.v2), s1) {
 			return false
 		}
 	}
@@ -341,7 +409,7 @@ func (k *setCase[T]) runAll(lays func() []lay) bool {
 		if !c.Guard("UniqueInPlace", func() { got = slicez.UniqueInPlace(s1) }) {
 			return false
 		}
-		if !k.inpl("UniqueInPlace", "", got, refUnique(k.v1), s1) {
+		if !k.inpl(opUniqueIn, "", got, refUnique(k.v1), s1) {
 			return false
 		}
 	}
@@ -351,7 +419,7 @@ func (k *setCase[T]) runAll(lays func() []lay) bool {
 		if !c.Guard("UniqueByKeyInPlace", func() { got = slicez.UniqueByKeyInPlace(s1, k.key) }) {
 			return false
 		}
-		if !k.inpl("UniqueByKeyInPlace", "["+k.keyName+"]", got, refUniqueByKey(k.v1, k.key), s1) {
+		if !k.inpl(opUniqueByKeyIn, k.keyName, got, refUniqueByKey(k.v1, k.key), s1) {
 			return false
 		}
 	}
@@ -361,7 +429,7 @@ func (k *setCase[T]) runAll(lays func() []lay) bool {
 		if !c.Guard("FilterInPlace", func() { got = slicez.FilterInPlace(s1, k.pred) }) {
 			return false
 		}
-		if !k.inpl("FilterInPlace", "["+k.predName+"]", got, refFilter(k.v1, k.pred), s1) {
+		if !k.inpl(opFilterIn, k.predName, got, refFilter(k.v1, k.pred), s1) {
 			return false
 		}
 	}
@@ -370,21 +438,21 @@ func (k *setCase[T]) runAll(lays func() []lay) bool {
 
 func (k *setCase[T]) classify(code1, code2 []int) {
 	c := k.c
-	c.Add("input_aliasing/"+aliasNames[k.mode], 1)
+	k.acc.alias[k.mode]++
 	switch {
 	case len(k.v1) == 0 && k.nil1 && k.mode != aliasS2inS1 && k.mode != aliasS1inS2:
-		c.Add("s1_nil", 1)
+		k.acc.misc[cS1Nil]++
 	case len(k.v1) == 0:
-		c.Add("s1_empty", 1)
+		k.acc.misc[cS1Empty]++
 	}
 	switch {
 	case len(k.v2) == 0 && k.nil2 && k.mode == aliasNone:
-		c.Add("s2_nil", 1)
+		k.acc.misc[cS2Nil]++
 	case len(k.v2) == 0:
-		c.Add("s2_empty", 1)
+		k.acc.misc[cS2Empty]++
 	}
 	if len(refUnique(k.v1)) < len(k.v1) {
-		c.Add("s1_with_duplicates", 1)
+		k.acc.misc[cDup]++
 	}
 	if len(k.v1) > 1 || len(k.v2) > 0 {
 		h := hashInts(hashInts(ev.HashString(k.in.name+k.keyName+k.predName), code1), code2)
@@ -422,10 +490,10 @@ func genCodes(rng *ev.Rand, vr int) []int {
 
 // randSet: one random (s1, s2, aliasing) input; every function once with a
 // random dst layout, plus the two layouts the statement names explicitly.
-func randSet[T comparable](c *ev.Case, in *setInst[T]) {
+func randSet[T comparable](c *ev.Case, acc *setAcc, in *setInst[T], sample bool) bool {
 	rng := c.Rng
 	vr := rng.Pick(1, 2, 3, 5, 5, 9)
-	k := &setCase[T]{c: c, in: in}
+	k := &setCase[T]{c: c, acc: acc, in: in}
 	code1 := genCodes(rng, vr)
 	code2 := genCodes(rng, vr)
 	k.mode = rng.Pick(aliasNone, aliasNone, aliasNone, aliasSame, aliasS2inS1, aliasS1inS2)
@@ -455,29 +523,42 @@ func randSet[T comparable](c *ev.Case, in *setInst[T]) {
 	}
 	ki := rng.Intn(len(in.keys))
 	pi := rng.Intn(len(in.preds))
-	k.key, k.keyName = in.keys[ki], in.keyNames[ki]
-	k.pred, k.predName = in.preds[pi], in.predNames[pi]
+	k.key, k.keyName = in.keys[ki], "["+in.keyNames[ki]+"]"
+	k.pred, k.predName = in.preds[pi], "["+in.predNames[pi]+"]"
 	k.classify(code1, code2)
 	lays := func() []lay {
 		return []lay{lay(rng.Intn(int(nLay))), lay(rng.Pick(int(layS1), int(layS1), int(layS2), int(layS1k)))}
 	}
 	if !k.runAll(lays) {
-		return
+		return false
 	}
-	if c.WantSample() {
+	acc.misc[cRandInputs]++
+	if sample && c.WantSample() {
 		c.Sample(fmt.Sprintf("%s key=%s pred=%s: Diff=%v Intersect=%v Unique=%v (10 functions, 2 dst layouts each)", k.ctx(), k.keyName, k.predName,
 			refDiff(k.v1, k.v2), refIntersect(k.v1, k.v2), refUnique(k.v1)))
 	}
+	return true
 }
 
+// randBatch inputs per case (one evidence/bookkeeping round trip per batch).
+const randBatch = 10
+
 func randSetCase(c *ev.Case) {
-	switch c.Index % 4 {
-	case 0, 1:
-		randSet(c, instInt)
-	case 2:
-		randSet(c, instPair)
-	default:
-		randSet(c, instStr)
+	var acc setAcc
+	defer acc.flush(c)
+	for j := 0; j < randBatch; j++ {
+		ok := false
+		switch (c.Index + j) % 4 {
+		case 0, 1:
+			ok = randSet(c, &acc, instInt, j == 0)
+		case 2:
+			ok = randSet(c, &acc, instPair, j == 0)
+		default:
+			ok = randSet(c, &acc, instStr, j == 0)
+		}
+		if !ok {
+			return
+		}
 	}
 }
 
@@ -522,7 +603,9 @@ func (s smallScope) total() int  { return s.pairs() + seqCount(s.sym, s.len1)*s.
 // all (s1, a, b) with s2 = s1[a:b] (a = 0, b = len gives s2 == s1).
 func smallRun[T comparable](s smallScope, in *setInst[T], c *ev.Case) {
 	rng := c.Rng
-	k := &setCase[T]{c: c, in: in}
+	var acc setAcc
+	defer acc.flush(c)
+	k := &setCase[T]{c: c, acc: &acc, in: in}
 	idx := c.Index
 	var code1, code2 []int
 	if idx < s.pairs() {
@@ -572,8 +655,8 @@ func smallRun[T comparable](s smallScope, in *setInst[T], c *ev.Case) {
 	}
 	ki := rng.Intn(len(in.keys))
 	pi := rng.Intn(len(in.preds))
-	k.key, k.keyName = in.keys[ki], in.keyNames[ki]
-	k.pred, k.predName = in.preds[pi], in.predNames[pi]
+	k.key, k.keyName = in.keys[ki], "["+in.keyNames[ki]+"]"
+	k.pred, k.predName = in.preds[pi], "["+in.predNames[pi]+"]"
 	k.classify(code1, code2)
 	all := make([]lay, nLay)
 	for i := range all {
@@ -582,7 +665,7 @@ func smallRun[T comparable](s smallScope, in *setInst[T], c *ev.Case) {
 	if !k.runAll(func() []lay { return all }) {
 		return
 	}
-	c.Add("small_scope_inputs", 1)
+	acc.misc[cSmallInputs]++
 	if c.WantSample() {
 		c.Sample(fmt.Sprintf("small scope #%d: %s, all %d dst layouts x 5 functions + 5 in-place variants", c.Index, k.ctx(), int(nLay)))
 	}
